@@ -574,7 +574,7 @@ pub fn run_batch(
     let min_fail = AtomicU64::new(u64::MAX);
     let agg = Mutex::new(Agg::default());
     let failure: Mutex<Option<Failure>> = Mutex::new(None);
-    let herr: Mutex<Option<String>> = Mutex::new(None);
+    let herr: Mutex<Option<(u64, String)>> = Mutex::new(None);
     std::thread::scope(|sc| {
         for _ in 0..workers.max(1) {
             sc.spawn(|| {
@@ -587,12 +587,14 @@ pub fn run_batch(
                     let seed = run_seed(base_seed, prop, sd.name, idx);
                     let out = (sd.generate)(seed, prop, tier, idx, known.clone());
                     if let Some(e) = &out.harness_error {
+                        // a run the harness could not follow is not a verdict: remember it (the check ends
+                        // with exit 2 unless another run shows a genuine violation) and go on
                         let mut h = herr.lock().unwrap();
-                        if h.is_none() {
-                            *h = Some(e.clone());
+                        match &*h {
+                            Some((i0, _)) if *i0 <= idx => {}
+                            _ => *h = Some((idx, e.clone())),
                         }
-                        min_fail.fetch_min(0, Ordering::SeqCst);
-                        break;
+                        continue;
                     }
                     if collect_digests {
                         local.digests.push((idx, out.ctx.digest()));
@@ -659,7 +661,7 @@ pub fn run_batch(
     BatchResult {
         agg,
         failure: failure.into_inner().unwrap(),
-        harness_error: herr.into_inner().unwrap(),
+        harness_error: herr.into_inner().unwrap().map(|(_, e)| e),
     }
 }
 
